@@ -9,8 +9,10 @@ import (
 	"bufio"
 	"fmt"
 	"os"
+	"runtime"
 	"sort"
 	"strconv"
+	"strings"
 )
 
 type Out struct {
@@ -30,6 +32,30 @@ func (o *Out) stat(k string) { o.stats[k]++ }
 type suiteFn func(r *Rng, n int, thorough bool, o *Out)
 
 var suites = map[string]suiteFn{}
+
+// runGuarded runs a suite; if the real code panics in a call the suite does not guard, or
+// hands the harness a value of a Go type the suite's own assertions do not expect, the
+// suite stops there and the case is reported as a failing input (a panic or a wrongly typed
+// value is a misbehaviour of the code under test on a generated input, never a reason to
+// lose the run).
+func runGuarded(fn suiteFn, r *Rng, n int, thorough bool, o *Out) {
+	defer func() {
+		if e := recover(); e != nil {
+			buf := make([]byte, 4096)
+			buf = buf[:runtime.Stack(buf, false)]
+			where := ""
+			for _, l := range strings.Split(string(buf), "\n") {
+				if strings.Contains(l, "/repo/") || strings.Contains(l, "/verif/harness/suite_") {
+					where += " " + strings.TrimSpace(l)
+				}
+			}
+			msg := strings.NewReplacer("\t", " ", "\n", " ").Replace(fmt.Sprint(e) + where)
+			o.stat("harness.crash")
+			o.emit(lst("harness", "crash", itoa(o.lines)), "panic", "FAIL:running the real code on the case after line "+itoa(o.lines)+" panicked outside a guarded call: "+msg)
+		}
+	}()
+	fn(r, n, thorough, o)
+}
 
 func main() {
 	if len(os.Args) >= 5 && os.Args[1] == "racer" {
@@ -56,7 +82,7 @@ func main() {
 		os.Exit(2)
 	}
 	o := &Out{w: bufio.NewWriterSize(f, 1<<20), stats: map[string]int{}}
-	fn(newRng(seed, suite), n, thorough, o)
+	runGuarded(fn, newRng(seed, suite), n, thorough, o)
 	o.w.Flush()
 	// distribution of what was generated, for the evidence file
 	keys := make([]string, 0, len(o.stats))
